@@ -218,10 +218,14 @@ def cex_c06(obl, results, env):
 def cex_cert(obl, results, env):
     """C01 / C03: the adversarial certificate corpus on the real verifiers"""
     import validate
-    try:
-        return _first_fail(validate.cert_corpus(env))
-    except driver.Undecided:
-        return None
+    for f in (validate.cert_corpus, validate.stolen_certificate):
+        try:
+            got = _first_fail(f(env))
+        except driver.Undecided:
+            got = None
+        if got:
+            return got
+    return None
 
 
 def cex_names(obl, results, env):
